@@ -63,6 +63,8 @@ Stages        == Range(P.stages)
 AllTasks      == DOMAIN P.beh
 TasksOf(s)    == P.tasks[s]
 TaskSet(s)    == Range(P.tasks[s])
+LiveSet(s)    == TaskSet(s) \cap DOMAIN tk                            \* task rows that exist (a lazy stage gets its rows when planned)
+LiveTasks(s)  == SelectSeq(P.tasks[s], LAMBDA t : t \in DOMAIN tk)
 StageOf(t)    == P.stageOf[t]
 Upstream(s)   == P.req[s]
 TopLevel      == {s \in Stages : P.parent[s] = ""}
@@ -177,7 +179,7 @@ FailureStatus(s) == IF P.cof[s] THEN "FAILED_CONTINUE" ELSE IF P.failp[s] THEN "
 DetermineStatus(s) ==
   LET B == {st[c].status : c \in Kids(s, "BEFORE") \cap DOMAIN st}
       A == {st[c].status : c \in Kids(s, "AFTER") \cap DOMAIN st}
-      C == B \cup {tk[t].status : t \in TaskSet(s)}
+      C == B \cup {tk[t].status : t \in LiveSet(s)}
       Inc == {"NOT_STARTED", "RUNNING"}
   IN
   IF C = {} THEN (IF st[s].status = "RUNNING"
@@ -198,7 +200,7 @@ DetermineStatus(s) ==
   ELSE IF "FAILED_CONTINUE" \in C THEN "FAILED_CONTINUE"
   ELSE "SUCCEEDED"
 CoreDone(s) ==   \* all before-children and tasks finished in a continuing status (and there is at least one)
-  LET C == {st[c].status : c \in Kids(s, "BEFORE") \cap DOMAIN st} \cup {tk[t].status : t \in TaskSet(s)}
+  LET C == {st[c].status : c \in Kids(s, "BEFORE") \cap DOMAIN st} \cup {tk[t].status : t \in LiveSet(s)}
   IN C # {} /\ C \subseteq {"SUCCEEDED", "SKIPPED", "FAILED_CONTINUE"}
 
 (* handlers/complete_workflow.py: _determine_final_status;  "RETRY" = re-queue, "" n/a *)
@@ -234,7 +236,7 @@ Cnt0      == [crashes |-> 0, withheld |-> 0, sweeps |-> 0, cancels |-> 0, signal
 Init ==
   /\ wf = [status |-> "NOT_STARTED", canceled |-> FALSE]
   /\ st = [s \in TopLevel |-> StageRow0]
-  /\ tk = [t \in {x \in AllTasks : StageOf(x) \in TopLevel} |-> TaskRow0]
+  /\ tk = [t \in {x \in AllTasks : StageOf(x) \in TopLevel /\ ~P.lazy[StageOf(x)]} |-> TaskRow0]   \* a lazy stage's tasks are built when it is planned
   /\ LET r == PushSeq({}, {}, 1, <<StartWorkflowM>>) IN q = r.q /\ pushed = r.pushed /\ nextId = r.nid
   /\ dlq = {} /\ done = {} /\ claims = <<>>
   /\ wk = [pc |-> "idle", mid |-> NoMsg, out |-> "", sib |-> <<>>, kids |-> <<>>, seen |-> {}, auth |-> TRUE]   \* hydrated from an empty store
@@ -346,6 +348,10 @@ ClaimsAfter(s) ==
   LET K == (IF P.mutex[s] = "" THEN {} ELSE {MutexKey(s)}) \cup (IF P.choice[s] = "" THEN {} ELSE {ChoiceKey(s)})
   IN [k \in DOMAIN claims \cup K |-> IF k \in K THEN s ELSE claims[k]]
 
+(* "zombie": RUNNING without task rows and without synthetic children - the claimer died between its claim commit and its
+   plan commit.  A StartStage for it is not ignored: it claims again (CAS on the RUNNING phase) and plans. *)
+Zombie(s) == st[s].status = "RUNNING" /\ LiveSet(s) = {} /\ Children(s) \cap DOMAIN st = {}
+
 StartStage ==
   /\ H("StartStage")
   /\ LET s == Cur.s
@@ -373,8 +379,8 @@ StartStage ==
                  /\ SetWk("hdone") /\ Label("StartStageRequeue")
                  /\ UNCHANGED <<wf, st, tk, dlq, claims, ledger, gh, cnt>>
        [] r = "READY" ->
-            IF st[s].status # "NOT_STARTED"
-            THEN NoCommit("StartStageIgnored")    \* (zombie re-plan needs builder-made tasks: StartStageZombie)
+            IF st[s].status # "NOT_STARTED" /\ ~Zombie(s)
+            THEN NoCommit("StartStageIgnored")
             ELSE IF ShouldSkip(s)
             THEN /\ Commit(<<SkipStageM(s)>>, TRUE)
                  /\ SetWk("hdone") /\ Label("StartStageDisabled")
@@ -402,7 +408,7 @@ StartStage ==
                                               ![s].bypass = FALSE]
                  /\ tk' = Touch(tk, s)
                  /\ claims' = ClaimsAfter(s)
-                 /\ gh' = [gh EXCEPT !.starts[s] = @ + 1]
+                 /\ gh' = IF Zombie(s) THEN gh ELSE [gh EXCEPT !.starts[s] = @ + 1]   \* a zombie re-plan is not a second start
                  /\ NoQueueChange
                  /\ wk' = [wk EXCEPT !.pc = "ss_claimed",
                                      !.sib = IF P.choice[s] = "" THEN <<>>
@@ -472,7 +478,7 @@ StartStagePlan ==   \* second commit: planned context + tasks + first continuati
   /\ wk.pc = "ss_claimed" /\ wk.sib = <<>> /\ wk.kids = <<>>
   /\ LET s == Cur.s IN
      /\ st' = [Bump(st, s) EXCEPT ![s].fired = @ \/ P.join[s] \in {"DISCRIMINATOR", "N_OF_M"}]
-     /\ tk' = Touch(tk, s)
+     /\ tk' = IF LiveSet(s) = {} THEN AddTasks(tk, s) ELSE Touch(tk, s)     \* builder-built tasks: rows inserted here
      /\ Commit(StartMsgs(s), TRUE)
      /\ SetWk("hdone") /\ Label("StartStagePlan")
      /\ UNCHANGED <<wf, dlq, claims, ledger, gh, cnt>>
@@ -789,7 +795,7 @@ CancelWorkflowFlag ==
           /\ gh' = IF wf.canceled THEN gh
                    ELSE [gh EXCEPT !.unfinishedAtCancel =
                            {s \in TopLevel : /\ s \in DOMAIN st /\ st[s].status \notin Complete
-                                             /\ \E t \in TaskSet(s) : \/ tk[t].status = "NOT_STARTED"
+                                             /\ \E t \in LiveSet(s) : \/ tk[t].status = "NOT_STARTED"
                                                                       \/ (tk[t].status = "RUNNING" /\ t \notin gh.resulted)}]
           /\ SetWk("cw_flagged") /\ Label("CancelWorkflowFlag")
           /\ UNCHANGED <<st, tk, dlq, claims, ledger, cnt>>
@@ -869,7 +875,7 @@ JumpToStage ==
           /\ UNCHANGED <<wf, dlq, claims, ledger, cnt>>
 
 (* handlers/signal_stage.py *)
-SuspendedTask(s) == LET S == SelectSeq(TasksOf(s), LAMBDA t : tk[t].status = "SUSPENDED") IN IF S = <<>> THEN "" ELSE S[1]
+SuspendedTask(s) == LET S == SelectSeq(LiveTasks(s), LAMBDA t : tk[t].status = "SUSPENDED") IN IF S = <<>> THEN "" ELSE S[1]
 SignalStage ==
   /\ H("SignalStage")
   /\ LET s == Cur.s IN
@@ -999,8 +1005,8 @@ BeforeKidsPending(s) ==    \* the last before-child to complete starts the first
   \E k \in DOMAIN st : P.parent[k] = s /\ P.owner[k] = "BEFORE" /\ st[k].status \notin Complete
 RecFor(s) ==
   IF st[s].status = "RUNNING"
-  THEN LET R == SelectSeq(TasksOf(s), LAMBDA t : tk[t].status = "RUNNING")
-           N == SelectSeq(TasksOf(s), LAMBDA t : tk[t].status = "NOT_STARTED")
+  THEN LET R == SelectSeq(LiveTasks(s), LAMBDA t : tk[t].status = "RUNNING")
+           N == SelectSeq(LiveTasks(s), LAMBDA t : tk[t].status = "NOT_STARTED")
        IN IF R # <<>> THEN Map(RunTaskM, SelectSeq(R, LAMBDA t : ~PendingFor(t)))
           ELSE IF N # <<>> /\ st[s].started
                THEN (IF BeforeKidsPending(s) \/ PendingFor(N[1]) THEN <<>> ELSE <<StartTaskM(N[1])>>)
